@@ -129,8 +129,31 @@ func DrawWorld(t *rapid.T, cfg WorldCfg) (*World, *Drawn) {
 			d.add(true, "short-validity-periods-around-own-times")
 		}
 	}
+	// validity periods that end far in the future: beyond 2262-04-11T23:47:16Z (where a count of nanoseconds since 1970
+	// no longer fits 63 bits), up to 9999-12-31T23:59:59Z, the "no well-defined expiration" value of RFC 5280
+	var farEnd time.Time
+	if !cfg.Simple && !tight && rapid.IntRange(0, 3).Draw(t, "validityEndsFarInTheFuture") == 0 {
+		farEnd = rapid.SampledFrom([]time.Time{time.Date(2262, 4, 11, 23, 47, 16, 0, time.UTC), time.Date(2262, 4, 12, 0, 0, 0, 0, time.UTC), time.Date(2300, 1, 1, 0, 0, 0, 0, time.UTC), time.Date(2554, 7, 21, 23, 34, 34, 0, time.UTC), time.Date(9999, 12, 31, 23, 59, 59, 0, time.UTC)}).Draw(t, "farEnd")
+		far := Window{Wide.NotBefore, farEnd}
+		which := rapid.IntRange(0, 4).Draw(t, "farWhat")
+		if which == 0 || which == 4 {
+			spec.RootW = far
+		}
+		if which == 1 || which == 4 {
+			spec.IntW = far
+		}
+		if which == 2 || which == 4 {
+			spec.TcbW, spec.QeW = far, far
+		}
+		d.add(true, "validity-ends-far-in-the-future")
+	}
 	p := NewPKI(spec)
 	w := NewWorld(p, s)
+	if !farEnd.IsZero() {
+		if rapid.Bool().Draw(t, "farLeaf") {
+			w.LeafSpec.W = Window{Wide.NotBefore, farEnd}
+		}
+	}
 	if tight {
 		before := rapid.SampledFrom([]time.Duration{time.Second, time.Hour, 30 * 24 * time.Hour}).Draw(t, "leaf-before")
 		after := rapid.SampledFrom([]time.Duration{time.Second, time.Hour, 30 * 24 * time.Hour}).Draw(t, "leaf-after")
@@ -369,6 +392,14 @@ func DrawWorld(t *rapid.T, cfg WorldCfg) (*World, *Drawn) {
 			w.QeID.IssueDate, w.QeID.NextUpdate = w.Times.QeIdentity.Add(-time.Second).Truncate(time.Second), w.Times.QeIdentity.Add(time.Hour)
 			w.PckCrl.NextUpdate, w.RootCrl.NextUpdate = w.Times.PckCrl.Add(time.Hour), w.Times.RootCaCrl.Add(time.Hour)
 			w.PckCrl.ThisUpdate, w.RootCrl.ThisUpdate = w.Times.PckCrl.Add(-time.Hour), w.Times.RootCaCrl.Add(-time.Hour)
+		}
+		if !farEnd.IsZero() {
+			if rapid.Bool().Draw(t, "farDocuments") {
+				w.TcbInfo.NextUpdate, w.QeID.NextUpdate = farEnd, farEnd
+			}
+			if rapid.Bool().Draw(t, "farLists") {
+				w.PckCrl.NextUpdate, w.RootCrl.NextUpdate = farEnd, farEnd
+			}
 		}
 		// revocation dates of the (unrelated) entries are informational: anywhere, including after the judging times
 		for i := range w.PckCrl.Revoked {
